@@ -285,6 +285,10 @@ class MuxSocketTransportSink(ClientMessageSink):
         # for this message.  If the message times out in transit, this
         # transport will handle sending a Tdiscarded to the server.
         if self._HandleTimeout(dct): continue
+        if dct.get(Tag.KEY, 0) is None:
+          # Answered while still queued (e.g. a duplicated reply): its tag is
+          # back in the pool and may already belong to another request.
+          continue
 
         with self._varz.send_time.Measure():
           with self._varz.send_latency.Measure():
